@@ -353,7 +353,11 @@ def given_exception_matches(err, exc) -> bool:
         return False
     if not isclass(err):
         err = type(err)
-    return issubclass(err, exc)
+    if isinstance(exc, tuple):
+        return any(given_exception_matches(err, element) for element in exc)
+    # Like CPython, look at the MRO only: an `except` clause neither calls
+    # `__subclasscheck__` nor catches virtual subclasses registered with an ABC.
+    return any(base is exc for base in getattr(err, "__mro__", ()))
 
 
 def string_distance(string1: str, string2: str) -> float:
